@@ -112,9 +112,28 @@ def gen_trace(rng, nrec, remove_pbc):
                 H[i][i] = rng.randint(S, Lmax)
                 for j in range(i):
                     H[i][j] = rng.randint(-H[j][j] // 2, H[j][j] // 2)
+        far = rng.random() < 0.3
+        if far:
+            # displacements spanning MANY cells (unwrapped coordinates of a long run): image counts around and beyond
+            # 127 / 128, 255 / 256 (and 32767 / 32768 in 2-D).  Small cells keep the exact fractional numerators
+            # (r Adj(H), summed over d terms) within TLC's 32-bit integers.
+            Lf = 100 if d == 2 else 30
+            H = [[0] * d for _ in range(d)]
+            for i in range(d):
+                H[i][i] = rng.randint(Lf // 3, Lf)
+                for j in range(i):
+                    H[i][j] = rng.randint(-H[j][j] // 2, H[j][j] // 2) if rng.random() < 0.6 else 0
         ppp = [rng.randint(0, 1) for _ in range(d)]
+        if far and sum(ppp) == 0:
+            ppp[rng.randrange(d)] = 1
         n = rng.randint(1, 50)
         R = [[rng.randint(-2 * Lmax, 2 * Lmax) for _ in range(d)] for _ in range(n)]
+        if far:
+            counts = [127, 128, 129, 255, 256, 257, 300, 1000] + ([32767, 32768, 32769, 40000] if d == 2 else [])
+            R = []
+            for _ in range(n):
+                m = [rng.choice(counts) * rng.choice([-1, 1]) if rng.random() < 0.7 else rng.randint(-3, 3) for _ in range(d)]
+                R.append([sum(m[a] * H[a][k] for a in range(d)) + rng.randint(-H[k][k] // 3, H[k][k] // 3) for k in range(d)])
         Hf = np.array(H, dtype=float) / S
         Rf = np.array(R, dtype=float) / S
         out = np.asarray(remove_pbc(Rf, Hf, np.array(ppp)))
